@@ -324,8 +324,10 @@ class SeekableStreamReaderWrapper(TellableStreamWrapper):
 
     async def seek(self, offset: int) -> None:
         if offset > self.position:
-            await self.stream.read(offset - self.position)
-            self.position = offset
+            # A stream can return fewer bytes than requested: skip until `offset` or EOF
+            while self.position < offset:
+                if not await self.read(min(offset - self.position, 2**16)):
+                    break
         elif offset < self.position:
             raise tarfile.ReadError("Cannot seek backward with streams")
 
